@@ -517,6 +517,10 @@ fn builtin_round(args: Vec<Rc<Object>>) -> Result<Rc<Object>, String> {
     match args[0].as_ref() {
         Object::Float(f) => {
             if let Object::Integer(n) = args[1].as_ref() {
+                // 10^18 is the largest power of ten that fits an i64
+                if *n < 0 || *n > 18 {
+                    return Err(String::from("precision should be between 0 and 18"));
+                }
                 let multiplier = 10i64.pow(*n as u32);
                 let rounded = (f * multiplier as f64).round() / multiplier as f64;
                 Ok(Rc::new(Object::Float(rounded)))
@@ -1161,10 +1165,17 @@ fn builtin_rand(args: Vec<Rc<Object>>) -> Result<Rc<Object>, String> {
     };
     match max.as_ref() {
         Object::Integer(n) => {
+            if *n < 0 {
+                return Err(String::from("argument should not be negative"));
+            }
             let r = rng.gen_range(0..=*n) as i64;
             Ok(Rc::new(Object::Integer(r)))
         }
         Object::Float(n) => {
+            // the range 0.0..=n must not be empty and must have finite bounds
+            if !n.is_finite() || *n < 0.0 {
+                return Err(String::from("argument should be finite and not negative"));
+            }
             let r = rng.gen_range(0.0..=*n) as f64;
             Ok(Rc::new(Object::Float(r)))
         }
